@@ -10,8 +10,8 @@ impl Encoder {
         self.u32(px.ttl);
         let length_index = self.create_length_index();
         self.u16(px.preference);
-        self.domain_name(&px.map822)?;
-        self.domain_name(&px.mapx400)?;
+        self.domain_name_uncompressed(&px.map822)?;
+        self.domain_name_uncompressed(&px.mapx400)?;
         self.set_length_index(length_index)
     }
 }
